@@ -717,7 +717,7 @@ def _replay(inst, rep, fl, seed, replay_dir, conc_samples):
         payload['note'] = 'no-failing-input-found: the solver model did not reproduce natively'
     if replay_dir:
         os.makedirs(replay_dir, exist_ok=True)
-        fn = os.path.join(replay_dir, _safe('%s__%s__%s.json' % (inst.func.split(':')[-1], inst.name, name)))
+        fn = os.path.join(replay_dir, _safe('%s__%s__%s' % (inst.func.split(':')[-1], inst.name, name)) + '.json')
         with open(fn, 'w') as fh:
             json.dump(payload, fh, indent=1)
         viol['replay'] = fn
@@ -725,4 +725,4 @@ def _replay(inst, rep, fl, seed, replay_dir, conc_samples):
 
 
 def _safe(s):
-    return ''.join(ch if ch.isalnum() or ch in '._-' else '_' for ch in s)[:180]
+    return ''.join(ch if ch.isalnum() or ch in '._-' else '_' for ch in s)[:150]
